@@ -410,7 +410,8 @@ def finish(run, prop, t0, write_baseline=False):
         'wall_s': round(time.time() - t0, 2),
         'violations': len(run.violations),
     }
-    if not os.environ.get('VERIF_NO_EVIDENCE'):
+    if not os.environ.get('VERIF_NO_EVIDENCE') and os.path.realpath(
+            run.repo) == '/repo':
         os.makedirs(os.path.join(VERIF, 'evidence'), exist_ok=True)
         with open(os.path.join(VERIF, 'evidence', pid + '.json'), 'w') as f:
             json.dump(ev, f, indent=1, default=str)
